@@ -31,4 +31,6 @@ def run(tier):
     wave3.no_exit_before_yield_rule(run, f, "C08-NO-EXIT-BEFORE-YIELD")
     # clauses added for the wave-2 seeds (rules/wave2.py; DESIGN 12a)
     wave3.suspender_popped_rule(run, f, "C08-SUSPENDER-POPPED")
+    # clauses added for the wave-2 seeds (rules/wave2.py; DESIGN 12a)
+    wave3.error_from_syscall_rule(run, f, "C08-ERROR-FROM-SYSCALL")
     return run.finish()
